@@ -1,7 +1,8 @@
 (* props/C10.v - property C10: Merkle trees build correctly under any schedule; honest proofs are
    complete and minimal.  Only statements, each closed by `exact`, each followed by Print Assumptions.
-   Model: model/Merkle.v (from_digests fixed cutoff fuel; fixed = false is the pinned tree, fixed = true the
-   anticipated repair of the `while count >= cutoff` loop).  Specification: spec/MerkleSpec.v. *)
+   Model: model/Merkle.v (from_digests fixed cutoff fuel; fixed = true is the current tree, after repair
+   2570109 of the `while count >= cutoff` loop; fixed = false the originally pinned tree).
+   Specification: spec/MerkleSpec.v. *)
 From Coq Require Import ZArith Bool List.
 From TF Require Import Merkle MerkleSpec MerkleProofs.
 Import ListNotations.
@@ -19,14 +20,21 @@ Theorem C10_spec_tree_unique : forall (D : Type) (H : D -> D -> D) (dflt : D) (l
 Proof. exact tree_ok_unique. Qed.
 Print Assumptions C10_spec_tree_unique.
 
-(* construction = specification, for every cutoff >= 1 (every cutoff after the repair), every
-   sufficient fuel: in particular independent of the cutoff *)
+(* construction = specification, for every cutoff on the current tree (every cutoff >= 1 before the
+   repair), every sufficient fuel: in particular independent of the cutoff *)
 Theorem C10_build_spec : forall (D : Type) (H : D -> D -> D) (dflt : D) (fixed : bool) (cutoff : Z)
     (fuel : nat) (leafs : list D),
   fixed = true \/ 1 <= cutoff -> is_pow2 (zlen leafs) = true -> zlen leafs < 2 ^ Z.of_nat fuel ->
   from_digests D H dflt fixed cutoff fuel leafs = Ok (spec_tree D H dflt leafs).
 Proof. exact build_spec_lemma. Qed.
 Print Assumptions C10_build_spec.
+
+(* the current tree: every cutoff, including 0 *)
+Theorem C10_build_spec_current : forall (D : Type) (H : D -> D -> D) (dflt : D) (cutoff : Z) (leafs : list D),
+  is_pow2 (zlen leafs) = true ->
+  from_digests D H dflt CUR_CUTOFF_FIXED cutoff (build_fuel D leafs) leafs = Ok (spec_tree D H dflt leafs).
+Proof. exact build_spec_current. Qed.
+Print Assumptions C10_build_spec_current.
 
 Example C10_build_spec_hyp : exists (cutoff : Z) (fuel : nat) (leafs : list term),
   (false = true \/ 1 <= cutoff) /\ is_pow2 (zlen leafs) = true /\ zlen leafs < 2 ^ Z.of_nat fuel /\
@@ -39,8 +47,8 @@ Theorem C10_build_rejects : forall (D : Type) (H : D -> D -> D) (dflt : D) (fixe
 Proof. exact build_rejects_lemma. Qed.
 Print Assumptions C10_build_rejects.
 
-(* termination: with the standard fuel the loop never runs out, for every cutoff >= 1 on the pinned
-   tree and for every cutoff after the repair *)
+(* termination: with the standard fuel the loop never runs out, for every cutoff on the current tree
+   (for every cutoff >= 1 before the repair) *)
 Theorem C10_build_terminates : forall (D : Type) (H : D -> D -> D) (dflt : D) (fixed : bool) (cutoff : Z)
     (leafs : list D),
   fixed = true \/ 1 <= cutoff ->
@@ -48,7 +56,7 @@ Theorem C10_build_terminates : forall (D : Type) (H : D -> D -> D) (dflt : D) (f
 Proof. exact build_terminates_lemma. Qed.
 Print Assumptions C10_build_terminates.
 
-(* REFUTED on the pinned tree for cutoff = 0 (finding key merkle-cutoff-zero-nontermination):
+(* history: REFUTED for the variant before 2570109 with cutoff = 0 (merkle-cutoff-zero-nontermination):
    no amount of fuel suffices *)
 Theorem C10_build_terminates_v0_refuted :
   exists (D : Type) (H : D -> D -> D) (dflt : D) (cutoff : Z) (leafs : list D),
@@ -57,9 +65,9 @@ Theorem C10_build_terminates_v0_refuted :
 Proof. exact build_terminates_v0_refuted. Qed.
 Print Assumptions C10_build_terminates_v0_refuted.
 
-(* which variant the oracle runs as "the current /repo": flips to true with the repair *)
-Theorem C10_model_variant : CUR_CUTOFF_FIXED = false.
-Proof. exact (eq_refl false). Qed.
+(* which variant the oracle runs as "the current /repo" *)
+Theorem C10_model_variant : CUR_CUTOFF_FIXED = true.
+Proof. exact (eq_refl true). Qed.
 Print Assumptions C10_model_variant.
 
 (* the accessors of a constructed tree *)
